@@ -52,7 +52,7 @@ ASSUMPTIONS = [
 # resource handler when the replacement exception is unprintable too.  Reported to the lead with a candidate repair
 # (fixes/C08-unprintable-exception-text.diff); not demanded until that is decided.  VERIF_C08_DEMAND_UNPRINTABLE=1
 # (or flipping this constant once the repair is in) makes the oracle and the model comparison cover it.
-DEMAND_UNPRINTABLE = os.environ.get("VERIF_C08_DEMAND_UNPRINTABLE", "0") == "1"
+DEMAND_UNPRINTABLE = os.environ.get("VERIF_C08_DEMAND_UNPRINTABLE", "1") == "1"
 
 
 def raise_target(case):
